@@ -69,13 +69,17 @@ theorem getItem_some (pos : Bytes) (it : ListItem) (rest : Bytes) (h : strListGe
       exact (space_ne 34 (ht 34 h34)).1 rfl
     have hnc : (44 : UInt8) ∉ raw := by rw [← hraw] at hq' ⊢; exact scanItem_noquote s1 hq'
     have hne : rtrim raw ≠ [] := by intro h0; simp [h0] at hemp
-    have hstrip : optElem (strip raw) = [strip it.item] := by
-      have := rtrim_ne_nil_strip raw hne
+    have hhead := List.head?_dropWhile_not isListLead pos
+    rw [hs1, ← happ] at hhead
+    have hstrip : optElem raw = [strip it.item] := by
       rw [hitem, strip_rtrim]
       unfold optElem
-      cases hsr : strip raw with
-      | nil => exact absurd hsr this
-      | cons a b => simp
+      cases hraw0 : raw with
+      | nil => exact absurd (by rw [hraw0]; rfl) hne
+      | cons a b =>
+        rw [hraw0] at hhead
+        simp only [List.cons_append, List.head?_cons] at hhead
+        simp [hhead]
     have hlen1 : s1.length ≤ pos.length := by
       rw [← hs1]
       exact (List.dropWhile_sublist _).length_le
@@ -152,7 +156,9 @@ theorem getItem_none (pos rest : Bytes) (h : strListGetItem pos = (none, rest)) 
     rw [hs1] at hhead
     rw [← elements_dropWhile_lead pos, hs1, ← happ]
     rcases hrest with hr0 | ⟨r, hr⟩
-    · rw [hr0, List.append_nil, elements_nocomma raw hnc, hstrip]; rfl
+    · have hall := blankOk_nocomma raw hnc (by rw [← happ, hr0, List.append_nil] at hb1; exact hb1) hstrip
+      rw [hr0, List.append_nil, elements_nocomma raw hnc]
+      simp [optElem, hall]
     · exfalso
       rw [← happ, hr] at hb1 hhead
       have hall := (blankOk_nocomma_append raw r hnc hb1).1 hstrip
